@@ -68,6 +68,10 @@ CLAIMED = {
  'C12': dict(tech="TLC: UBI tweak schedule model-checked for every bit length over 0..4 blocks and start positions at limb boundaries; TLC trace validation recomputing every Skein / UBI output from the TLA+ transcription of Skein 1.3 (validated on the official vectors incl. MAC and tree)",
              text="Nb in {256,512,1024}, No in {8,16,Nb-8,Nb,Nb+8,2Nb,4Nb}, message lengths at the block boundaries over 0..4 blocks with every L mod 8 (explicit and omitted bit length, data longer than needed), keys absent/empty/short/longer than a block, prs/PK/kdf/nonce alone and combined, tree shapes Yl,Yf in 1..3 / Ym in 2..4, bare UBI with start positions near 2^64.  Content is seeded.",
              ref="DESIGN.md section 7 C12"),
+
+ 'C18': dict(tech="TLC trace validation of the refinement obligation WhiteDES(tables(K)).enc(B) = DES_K(B) against the TLA+ transcription of FIPS 46-3 (not against crysp.des); each generated table network is a program evaluated on a basis of blocks",
+             text="Keys: zero, ones, weak and semi-weak keys, pairs differing only in parity bits, walking-one and random keys (8 quick / 150 thorough); per key the table network is generated by the library and evaluated on all 64 single-bit blocks, zero, ones and random blocks; every T-box is checked to be a total byte map (16 x 12 x 256) and M1/M2/M3 to be identical for all keys.  Keys and blocks are sampled: the 2^64 x 2^64 space is out of reach.",
+             ref="DESIGN.md section 7 C18"),
 }
 PENDING = "check not built yet in this tree (specification modules are being written; see DESIGN.md section 12 build order) - not claimed until its quick command runs clean"
 def main():
